@@ -969,8 +969,15 @@ P_reloadcfg(s, f) ==
       idx(n) == Min(ByName(s, n))                                \* get_watcher(n): the dict
   IN
   CASE fr.pc = "0" ->
+         \* the [circus] section of the file is not what the arbiter was booted with: "reload everything" = stop all
+         \* watchers, start all watchers (outside circusd), and nothing else - the watcher sections are not looked at,
+         \* and the arbiter's own settings stay as they were, so every later reloadconfig does the same again
+         IF q.arbchg THEN Call(SetM(s, f, [file |-> q.file, plan |-> q.plan, chg |-> <<>>]), f, "r1", "a_restart", 0, 0, 0, 0)
+         ELSE
          Goto(SetM(SetL(s, f, OrderBy(SeqSet(cur) \cap SeqSet(FileNames(q)), q.plan.chg, base)), f,
                    [file |-> q.file, plan |-> q.plan, chg |-> <<>>]), f, "c1")
+    [] fr.pc = "r1" -> Await(s, f, "r2")
+    [] fr.pc = "r2" -> Ret(DropKids(s, f), f, 1)
     \* -- for n in maybechanged_wn
     [] fr.pc = "c1" -> IF fr.l = <<>> THEN Goto(s, f, "d0")
                        ELSE Emit(Goto(s, f, "c2"), Line("selw", Head(fr.l), 0, 0, "", ""))
@@ -1028,7 +1035,7 @@ QuitReq == [cmd |-> "quit", name |-> "", lname |-> "", hasname |-> FALSE, mid |-
             nb |-> 1, G |-> -1, nostop |-> FALSE, graceful |-> TRUE, sequential |-> FALSE, raw |-> FALSE,
             start |-> FALSE, addnp |-> 1, addG |-> 1, addW |-> 0, addsing |-> FALSE, nopts |-> 1, pattern |-> FALSE,
             opts |-> <<>>, matches |-> <<>>, file |-> <<>>, plan |-> [chg |-> <<>>, del |-> <<>>, add |-> <<>>],
-            rovalid |-> TRUE, adduid |-> "none"]
+            rovalid |-> TRUE, adduid |-> "none", arbchg |-> FALSE]
 
 Dispatch(s, f, ob) ==
   LET fn == s.fr[f].fn IN
